@@ -751,19 +751,21 @@ Proof.
   eapply Forall_impl; [|apply IH]. intros [y p] (A & B). cbn in *. split; [assumption|lia].
 Qed.
 
-Lemma delivered_ok g ops : forall s tr, 0 <= s <= gH g -> trace_ok g s ops tr ->
+Lemma delivered_ok g ops : forall s tr, Forall op_nonneg ops -> 0 <= s <= gH g -> trace_ok g s ops tr ->
   Forall (fun yp => snd yp = ideal_s (fst yp) /\ 0 <= fst yp < gH g) (delivered tr).
 Proof.
-  induction ops as [|o t IH]; intros s tr Hs Htr; destruct tr as [|[[[before cs] rs] after] tr']; cbn in Htr; try contradiction.
+  induction ops as [|o t IH]; intros s tr Hnn Hs Htr; destruct tr as [|[[[before cs] rs] after] tr']; cbn in Htr; try contradiction.
   - constructor.
   - destruct Htr as (-> & (Haft & Hsum & Ho) & Hrest). cbn [delivered].
+    assert (Hno : op_nonneg o) by (inversion Hnn; assumption).
+    assert (Hnt : Forall op_nonneg t) by (inversion Hnn; assumption).
     assert (Hamt : 0 <= after - s) by (destruct o; cbn in *; lia).
     apply Forall_app. split.
     + destruct o as [n | n].
       * destruct Ho as (-> & _). eapply Forall_impl; [|apply combine_rows_of].
         intros [y p] (A & B). cbn in *. split; [assumption|lia].
       * destruct Ho as (-> & _). constructor.
-    + apply (IH after); [lia | assumption].
+    + apply (IH after); [assumption | lia | assumption].
 Qed.
 
 (* Theorem (3)+(4), no-context main controller incl. merged upsampling, for all geometries and all histories
@@ -776,7 +778,7 @@ Proof.
   cbn [a_s a_init] in A, B. splits.
   - rewrite A. rewrite (final_pos_min g ops 0) by (try assumption; lia). unfold total_requested. f_equal.
   - exact B.
-  - apply (delivered_ok g ops 0); [lia | exact B].
+  - apply (delivered_ok g ops 0); [assumption | lia | exact B].
 Qed.
 
 (* the full statement is false for the code that exists: one witness per hazard class *)
